@@ -164,3 +164,62 @@ func init() {
 		}
 	}
 }
+
+func init() {
+	exploreHooks["constindex"] = func(c *Ctx) {
+		r := NewReport("X", "quick")
+		r.Rule("x", "x", 0)
+		fs := c.entryReach(r, c20Entries...)
+		fmt.Println("reachable funcs", len(fs))
+		for _, f := range fs {
+			info := f.Info()
+			ast.Inspect(f.Decl.Body, func(n ast.Node) bool {
+				ix, ok := n.(*ast.IndexExpr)
+				if !ok {
+					return true
+				}
+				tv, ok := info.Types[ix.X]
+				if !ok || tv.Type == nil || tv.IsType() {
+					return true
+				}
+				switch t := tv.Type.Underlying().(type) {
+				case *types.Slice:
+				case *types.Basic:
+					if t.Info()&types.IsString == 0 {
+						return true
+					}
+				default:
+					return true
+				}
+				xs := types.ExprString(ix.X)
+				guarded := false
+				for _, ft := range c.FactsAt(f, ix, true) {
+					if ft.Cond != nil && (containsStr(types.ExprString(ft.Cond), "len("+xs+")") || containsStr(types.ExprString(ft.Cond), xs)) {
+						guarded = true
+					}
+				}
+				if loop := c.EnclosingLoop(f, ix); loop != nil {
+					if rs, ok := loop.(*ast.RangeStmt); ok && types.ExprString(rs.X) == xs {
+						guarded = true
+					}
+					if fs, ok := loop.(*ast.ForStmt); ok && fs.Cond != nil && containsStr(types.ExprString(fs.Cond), xs) {
+						guarded = true
+					}
+				}
+				if !guarded {
+					fmt.Printf("%s %s: %s\n", c.Pos(ix.Pos()), f.Name, types.ExprString(ix))
+				}
+				return true
+			})
+		}
+	}
+}
+
+func containsStr(s, sub string) bool {
+	for i := 0; i+len(sub) <= len(s); i++ {
+		if s[i:i+len(sub)] == sub {
+			return true
+		}
+	}
+	return false
+}
